@@ -1,12 +1,66 @@
 import Driver.Util
-/-! Driver section for C12 (stub until the model is online). -/
+import RxnModel.Model.Publish
+/-! Driver section for C12: the `snapshots.Store` call protocol (`Model/Store.lean`) with synchronous
+publication (`Model/Publish.lean`: write, lock section, removals run right after the finishing call) and
+store restarts (`crash` = new Store + LoadCheckpoint). -/
 namespace Driver.C12
-open Rxn Driver
+open Rxn Driver Rxn.Store
 
-def step (st : Unit) : List String → Unit × String
+structure St where
+  sys : Publish.Sys := Publish.init []
+  descs : List (Nat × String) := []     -- contents of the snapshot files by id
+
+def natList (s : String) : List Nat :=
+  if s == "-" then [] else (s.splitOn ",").map natOr
+
+def showNats (l : List Nat) : String :=
+  if l.isEmpty then "-" else joinWith "," (l.map toString)
+
+def descOf (p : Snap) : String :=
+  let ents := p.opEntries.map fun e => s!"{e.op}:{e.cp}:{e.tag}"
+  s!"id={p.id} ops={if ents.isEmpty then "-" else joinWith ";" ents} splits={showNats p.splitStates}"
+
+def showRes : Res → String
+  | .id n => s!"id {n}"
+  | .inProgress => "inprogress"
+  | .spExisting n => s!"sp existing {n}"
+  | .spCreated n => s!"sp created {n}"
+  | .spAlready => "sp already"
+  | .ok => "ok"
+  | .errNoPending => "err nopending"
+  | .errWrongId => "err wrongid"
+  | .errUnknown => "err unknown"
+
+def applyAll (s : Publish.Sys) (as : List Publish.Act) : Publish.Sys :=
+  as.foldl (fun s a => match Publish.step s a with | some (s', _) => s' | none => s) s
+
+/-- a store call; a finished snapshot is published to the end at once (ungated storage) -/
+def call (st : St) (c : Call) : St × String :=
+  match Publish.step st.sys (.call c) with
+  | some (s1, [.res r]) => ({ st with sys := s1 }, showRes r)
+  | some (s1, [.res r, .finished snap]) =>
+    let s2 := applyAll s1 [.write snap.id, .lock snap.id]
+    let s3 := applyAll s2 (s2.pub.removes.map Publish.Act.remove)
+    ({ sys := s3, descs := (snap.id, descOf snap) :: st.descs }, s!"{showRes r} pub {descOf snap}")
+  | _ => (st, "model-error")
+
+def step (st : St) : List String → St × String
+  | ["create", ops, srs] => call st (.create (natList ops) (natList srs))
+  | ["savepoint", ops, srs] => call st (.savepoint (natList ops) (natList srs))
+  | ["opack", op, cp, tag] => call st (.opAck (natOr op) (natOr cp) (natOr tag))
+  | ["srack", sr, cp, splits] => call st (.srAck (natOr sr) (natOr cp) (natList splits))
+  | ["current"] =>
+    match st.sys.pub.current with
+    | none => (st, "cur none")
+    | some n => (st, s!"cur {(st.descs.lookup n).getD s!"id={n} ?"}")
+  | ["restart"] =>
+    match Publish.step st.sys .crash with
+    | some (s', [.loaded none]) => ({ st with sys := s' }, "loaded none")
+    | some (s', [.loaded (some n)]) => ({ st with sys := s' }, s!"loaded {n}")
+    | _ => (st, "model-error")
   | _ => (st, "bad-op")
 
 def handle (lines : Array String) (i : Nat) (out : Array String) : Nat × Array String :=
-  runLines step () lines i out
+  runLines step {} lines i out
 
 end Driver.C12
